@@ -12,6 +12,22 @@ NOT_APPLICABLE = {
 }
 
 PROPERTIES = {
+    "C06": {
+        "modules": ["harness.c06"],
+        "explanation": "",
+        "assumptions": COMMON_ASSUMPTIONS + [
+            "secp256k1, hmac and hashlib inside admin.certificate_v1 are replaced by an uninterpreted token algebra; ECDSA verification is a "
+            "symbolic verdict per (key, message, signature) triple: the LOGIC around the primitives is decided for every combination of "
+            "primitive outcomes; the primitives themselves (that ECDSA rejects a flipped bit, HMAC-SHA256) are outside the claim",
+            "all triples other than the n right ones share ONE independent symbolic verdict (n+1 booleans instead of one per triple)",
+            "replay re-executes the obligation with the same token algebra (the verdict table is part of the counterexample)",
+            "element graphs with more than 3 (thorough: 4) elements are outside the bound; malformed graphs are C16's subject",
+        ],
+        "level_text": "bounded symbolic verification of the chain walk: every element graph up to the bound is a partition, link verdicts / "
+                      "tweak declarations / key-parse failures are solver variables; oracle = the statement (all links from the root down, "
+                      "right key, tweak iff declared, value = extractor of the signed message, first failing element)",
+        "level_note": "trusted: CrossHair/z3, the token algebra standing for secp256k1/HMAC",
+    },
     "C18": {
         "modules": ["harness.c18"],
         "explanation": "",
